@@ -342,6 +342,54 @@ def gen_boxdir_case(r, ncalls):
     return ops
 
 
+def boundary_cases(r):
+    """boundary classes, present in every run (quick tier too), for every optimizer and every line-search type:
+    start exactly on the minimiser (zero gradient at init: zero direction, 0/0 in the initial step length and in
+    TrustRegionNewton's borderDistance), everything zero (A = I, b = 0, x0 = 0), dimension 1, no step at all (init, save, step),
+    a used object initialised twice in a row at the same point, equal diagonal entries (ties between coordinates in Rprop),
+    large and small magnitudes (objective and start scaled by 2^10 / 2^-10), one step exactly to the minimiser
+    (A = I with unit step).  Returns (scalar cases, line-search/TRN cases), each tagged with its class for the histogram"""
+    sc, lc = [], []
+    def quad(A, b): 
+        n = len(b)
+        return "obj quad %d %s %s" % (n, nums(x for row in A for x in row), nums(b))
+    probs = {
+        "start-on-minimiser-n1": ([[4]], [2], [0.5]),
+        "start-on-minimiser-n2": ([[2, 0], [0, 4]], [2, -2], [1, -0.5]),
+        "all-zero": ([[1, 0], [0, 1]], [0, 0], [0, 0]),
+        "dimension-1": ([[3]], [1], [-2.25]),
+        "equal-diagonal-ties": ([[2, 1, 1], [1, 2, 1], [1, 1, 2]], [1, 1, 1], [2, 2, 2]),
+        "identity-one-step": ([[1, 0, 0], [0, 1, 0], [0, 0, 1]], [1, -2, 0.5], [0, 0, 0]),
+        "large-magnitude": ([[2 * 1024, 1024], [1024, 3 * 1024]], [1024, -2048], [512, -768]),
+        "small-magnitude": ([[2 / 1024, 1 / 1024], [1 / 1024, 3 / 1024]], [1 / 1024, -2 / 1024], [0.5, -0.75]),
+    }
+    opts = []
+    for ls in (0, 1, 2):
+        opts += [("bfgs", "opt bfgs " + nums([ls])), ("cg", "opt cg " + nums([ls])), ("lbfgs", "opt lbfgs " + nums([ls, r.choice([1, 2, 5])]))]
+    opts += [("trn", "opt trn"), ("trn", "opt trn " + nums([8.0, 0.05]))]
+    for cls, (A, b, x0) in probs.items():
+        tr = sum(A[i][i] for i in range(len(b)))
+        lr = 1.0
+        while lr * tr > 1: lr /= 2
+        sopts = ["opt sd " + nums([lr, 0.5]), "opt sd " + nums([lr / 2, 0.0]), "opt adam " + nums([0.125, 0.9, 0.999, 1e-8])]
+        sopts += ["opt rprop " + nums([1.2, 0.5, 1e100, 0.0, fr, bt, ov, 0.125]) for fr, bt, ov in ((0, 0, 0), (1, 0, 0), (0, 1, 0), (0, 1, 1))]
+        for o in sopts:
+            tails = [["init " + nums(x0), "step", "step", "save text strict", "step"],
+                     ["init " + nums(x0), "save bin lenient", "step"],                       # no step before the first save
+                     ["init " + nums(x0), "init " + nums(x0), "step", "step"]]                # initialised twice in a row
+            sc.append((cls, [quad(A, b), o] + tails[r.below(3)]))
+        for kind, o in opts:
+            tails = [["init " + nums(x0), "step", "step", "save text strict", "step", "step"],
+                     ["init " + nums(x0), "save bin lenient", "step", "step"],
+                     ["init " + nums(x0), "init " + nums(x0), "step", "step", "step"]]
+            lc.append((cls, [quad(A, b), o] + tails[r.below(3)]))
+    # Rosenbrock boundary starts: on the minimiser (1,...,1), on the saddle-like origin, dimension 2
+    for kind, o in opts:
+        lc.append(("rosen-start-on-minimiser", ["obj rosen 3", o, "init " + nums([1, 1, 1]), "step", "step"]))
+        lc.append(("rosen-origin", ["obj rosen 2", o, "init " + nums([0, 0]), "step", "step", "step"]))
+    return sc, lc
+
+
 def case_info(ops):
     info = {"opt": "?", "obj": "?", "n": 0, "box": False, "saves": [], "steps": 0}
     for o in ops:
@@ -639,6 +687,28 @@ def record(ctx, cases):
         ctx.hist("dimension", i["n"]); ctx.hist("steps", min(i["steps"] // 10 * 10, 100))
         for s in i["saves"]: ctx.hist("save_protocol", s)
         ctx.hist("saves_per_case", len(i["saves"]))
+        ninit = sum(1 for o in c if o.startswith("init "))
+        ctx.hist("re_initialisations_per_case", max(ninit - 1, 0))
+        first = next((k for k, o in enumerate(c) if o.startswith("init ")), None)
+        if first is not None:
+            # steps before the first save (0 = archive of a freshly initialised object)
+            k = next((sum(1 for o in c[first:j] if o == "step") for j, o in enumerate(c) if j > first and o.startswith("save")), None)
+            if k is not None: ctx.hist("steps_before_first_save", min(k, 20))
+        for o in c:
+            t = o.split()
+            if t[0] == "opt" and t[1] == "lbfgs" and len(t) > 3:
+                ctx.hist("lbfgs_history_size", int(struct.unpack(">d", bytes.fromhex(t[3][1:]))[0]))
+            if t[0] == "opt" and t[1] in LS_KINDS:
+                ctx.hist("dlinmin_bracket_configured", len(t) > (5 if t[1] == "lbfgs" else 4))
+            if t[0] == "opt" and t[1] == "trn": ctx.hist("trn_configured", len(t) > 2)
+            if t[0] == "opt" and t[1] == "rprop":
+                f = [int(struct.unpack(">d", bytes.fromhex(x[1:]))[0]) for x in t[6:9]]
+                ctx.hist("rprop_variant(freeze,backtrack,oldvalue)", "%d%d%d" % tuple(f))
+            if t[0] == "opt" and t[1] == "sd": ctx.hist("sd_momentum", struct.unpack(">d", bytes.fromhex(t[3][1:]))[0])
+            if t[0] == "ls": ctx.hist("direct_linesearch_type", int(struct.unpack(">d", bytes.fromhex(t[1][1:]))[0]))
+            if t[0] == "init":
+                xs = [struct.unpack(">d", bytes.fromhex(x[1:]))[0] for x in t[1:]]
+                ctx.hist("start_all_zero", all(v == 0 for v in xs))
 
 
 def run(ctx):
@@ -664,6 +734,9 @@ def run(ctx):
     # all 8 Rprop variants (useFreezing x useBacktracking x useOldValue) on narrow boxes, non-separable objectives
     variants = [(a, b2, c2) for a in (0, 1) for b2 in (0, 1) for c2 in (0, 1)]
     cases += [gen_rprop_box_case(r, maxsteps, variants[i % 8]) for i in range(96 if ctx.quick else 960)]
+    bsc, blc = boundary_cases(r)
+    for cls, ops in bsc + blc: ctx.hist("boundary_class", cls)
+    cases += [ops for _, ops in bsc]
     record(ctx, cases)
     ctx.cov["evaluations"] = len(cases)
     ctx.cov["distinct_nontrivial"] = len({"\n".join(c) for c in cases if case_info(c)["steps"] >= 3})
@@ -679,6 +752,7 @@ def run(ctx):
     lcases += [gen_lbfgs_box_converge_case(r, 300 if ctx.quick else 600) for _ in range(70 if ctx.quick else 700)]
     # direct calls of getBoxConstrainedDirection (model of the dog-leg tied; oracle: feasible, descent, non-zero)
     lcases += [gen_boxdir_case(r, 12) for _ in range(60 if ctx.quick else 600)]
+    lcases += [ops for _, ops in blc]
     record(ctx, lcases)
     for c in lcases:
         for o in c:
